@@ -1,3 +1,4 @@
+mod comp_sketch;
 mod engine;
 mod exec;
 mod gen;
@@ -10,8 +11,13 @@ mod types;
 use std::collections::BTreeSet;
 use std::path::PathBuf;
 
-pub fn extra_engines(_prop: &str, _thorough: bool) -> Vec<sup::EnginePlan> {
-    Vec::new()
+pub fn extra_engines(prop: &str, thorough: bool) -> Vec<sup::EnginePlan> {
+    let mut v = Vec::new();
+    let t = thorough;
+    if prop == "C14" || prop == "C08" {
+        v.push(sup::EnginePlan { engine: "sketch", workers: 16, cases_per_worker: if t { 1500 } else { 150 }, timeout_s: if t { 1500 } else { 400 } });
+    }
+    v
 }
 
 pub fn rule_for(prop: &str, engine: &str) -> String {
@@ -23,6 +29,7 @@ pub fn rule_for(prop: &str, engine: &str) -> String {
                 gen::rule_text(prop).to_string()
             }
         }
+        "sketch" => comp_sketch::RULE.to_string(),
         _ => String::new(),
     }
 }
@@ -68,6 +75,7 @@ fn main() {
             let wa = engine::WorkerArgs { prop, thorough, seed, idx, cases, dir: dir.clone(), open_findings: open };
             let res = match eng.as_str() {
                 "seq" => engine::seq_worker(&wa),
+                "sketch" => comp_sketch::sketch_worker(&wa),
                 other => panic!("unknown engine {other}"),
             };
             engine::write_result(&dir, idx, &res);
@@ -125,9 +133,25 @@ fn replay_found(found: &engine::Found, path: &str, quiet: bool) -> i32 {
                 None => 0,
             }
         }
+        "sketch" => report(comp_sketch::replay(found), found, path),
         other => {
             eprintln!("unknown engine {other}");
             2
         }
+    }
+}
+
+fn report(v: Option<exec::Violation>, found: &engine::Found, path: &str) -> i32 {
+    match v {
+        Some(v) if v.prop == found.property => {
+            println!("[{} at step {}] {}", v.prop, v.step, v.msg);
+            println!("VIOLATION property={} replay={}", found.property, path);
+            1
+        }
+        Some(v) => {
+            println!("note: replay met a violation of another property: [{}] {}", v.prop, v.msg);
+            0
+        }
+        None => 0,
     }
 }
